@@ -18,7 +18,7 @@ def run_order(order):
     the fresh interpreter at that optimisation level (asserts / docstrings stripped)."""
     flags = []
     order = list(order)
-    while order and order[0] in ("-O", "-OO"):
+    while order and order[0] in ("-O", "-OO", "-Werror"):
         flags.append(order.pop(0))
     p = subprocess.run([PY] + flags + [str(VERIF / "harness" / "importshim.py"), str(REPO)] + order,
                        capture_output=True, text=True, env=child_env(), timeout=120)
@@ -91,7 +91,8 @@ def run(ctx):
         r.shuffle(p)
         orders.append([r.choice(["", "f:", "d:", "a:"]) + m for m in p])
     # ... nor the interpreter's optimisation level: every module first, and two full orders, under -O and -OO
-    for fl in ("-O", "-OO"):
+    # (-Werror: warnings, the compiler's included, are errors - the sources are compiled afresh in every interpreter)
+    for fl in ("-O", "-OO", "-Werror"):
         orders += [[fl, m] for m in mods]
         orders += [[fl] + list(mods), [fl] + list(reversed(mods))]
     if model_cex:
